@@ -1,3 +1,5 @@
+//go:build verif_c20wb
+
 // Engine C20 — canonical rendering of a builder's state (read through the hook
 // compose/verif_c20.go) as a sorted list of tagged strings; Corr/C20.v renders the model's
 // state the same way (snap_graph / snap_chain / snap_wf) and compares after every call.
@@ -11,12 +13,9 @@ import (
 	"github.com/cloudwego/eino/compose"
 )
 
-func flag(b bool, t, f string) string {
-	if b {
-		return t
-	}
-	return f
-}
+const haveState = true
+
+func snapOfGraph[T any](g *compose.Graph[T, T]) []string { return snapGraph(g.VerifC20Snapshot()) }
 
 func errClass(msg string) string {
 	return classify(fmt.Errorf("%s", msg))
@@ -74,7 +73,7 @@ func snapGraph(g *compose.VerifC20Graph) []string {
 }
 
 func (f *graphFE) snapshot() []string {
-	out := snapGraph(f.g.VerifC20Snapshot())
+	out := snapOfGraph(f.g)
 	sort.Strings(out)
 	return out
 }
